@@ -224,6 +224,26 @@ def run_binary(case):
         c.cmp(f"shape={sa}x{sb}", f"{fn}{mode} generic values", got, ref)
         if not (np.array_equal(Ag, A0) and np.array_equal(Bg, B0)):
             c.bad(f"shape={sa}x{sb}/inputs", "inputs modified", "modified", "unchanged")
+        # memory layouts of the inputs: Fortran order, reversed-stride view, broadcast view (stride 0) -- same values
+        if sa == sb:
+            for lay, fA, fB in (("F", np.asfortranarray, np.asfortranarray), ("rev", lambda a: a[..., ::-1][..., ::-1], lambda a: np.ascontiguousarray(a[::-1])[::-1]),
+                                ("AT", lambda a: np.ascontiguousarray(np.moveaxis(a, 0, -1)).transpose((a.ndim - 1,) + tuple(range(a.ndim - 1))), lambda a: a)):
+                Al, Bl = fA(Ag), fB(Bg)
+                if not (np.array_equal(Al, Ag) and np.array_equal(Bl, Bg)):
+                    raise AssertionError("layout helper changed values")
+                try:
+                    gl = _call_binary(fm, name, Al, Bl)
+                except Exception as e:
+                    c.bad(f"shape={sa}/layout={lay}", "raised on inputs in another memory layout", repr(e)[:200], "value")
+                    continue
+                c.trans += 1
+                c.cmp(f"shape={sa}/layout={lay}", f"{fn}{mode} with inputs in another memory layout", gl, ref)
+                if fn in ("dot", "ddot", "dddot", "dya", "cdya_ik", "cdya_il", "cdya") and np.ndim(ref) > 0:
+                    buf = np.asfortranarray(np.full_like(ref, 9.5))
+                    r = _call_binary(fm, name, Al, Bl, out=buf)
+                    c.trans += 1
+                    c.cmp(f"shape={sa}/layout={lay}/out=F", "result with a Fortran-ordered out= buffer", buf, ref)
+                    c.cmp(f"shape={sa}/layout={lay}/out=F/ret", "returned array with a Fortran-ordered out= buffer", r, ref)
         # out= variants: fresh buffer, reused buffer (holding previous result / garbage)
         if fn in ("dot", "ddot", "dddot", "dya", "cdya_ik", "cdya_il", "cdya") and sa == sb and np.ndim(ref) > 0:
             for hist in ("fresh", "garbage", "previous"):
